@@ -181,10 +181,10 @@ func checkInner(c core.Case, out []string, h header, capacity int) *core.Failure
 		switch {
 		case cr.Call == "l" || cr.Call == "e" || cr.Call == "f":
 			continue
-		case cr.Call == "o":
+		case cr.Call == "o" || cr.Call == "O":
 			o.Kind = lin.Pop
 			if !cr.Pending {
-				if len(f) != 3 || f[0] != "pop" {
+				if len(f) != 3 || (f[0] != "pop" && f[0] != "popw") || (f[0] == "popw") != (cr.Call == "O") {
 					return &core.Failure{Key: "harness", Desc: "unparsable result " + cr.Ret}
 				}
 				o.Val, _ = strconv.Atoi(f[1])
@@ -194,7 +194,7 @@ func checkInner(c core.Case, out []string, h header, capacity int) *core.Failure
 			o.Kind = lin.Push
 			o.Val, _ = strconv.Atoi(cr.Call[1:])
 			if !cr.Pending {
-				if len(f) != 2 || f[0] != "push" {
+				if len(f) != 2 || (f[0] != "push" && f[0] != "pushw") || (f[0] == "pushw") != strings.HasPrefix(cr.Call, "U") {
 					return &core.Failure{Key: "harness", Desc: "unparsable result " + cr.Ret}
 				}
 				o.OK = f[1] == "true"
@@ -280,6 +280,9 @@ func classify(c core.Case, out []string) []string {
 		}
 		if st.Ret == "push true" {
 			seen["push-ok"] = true
+		}
+		if strings.HasPrefix(st.Ret, "pushw") || strings.HasPrefix(st.Ret, "popw") {
+			seen["timed-"+map[bool]string{true: "success", false: "timeout"}[strings.HasSuffix(st.Ret, "true")]] = true
 		}
 		if strings.HasPrefix(st.Ret, "pop") && strings.HasSuffix(st.Ret, "true") {
 			seen["pop-ok"] = true
